@@ -384,15 +384,15 @@ HARNESSES = [
     H("c09_moma", c09_moma, tiers=("quick",), quick=dict(max_paths=8000, time_budget=70),
       bounds="T1 all, T2 and T3 first 2 symbolic; reference: pFBA or FBA solution of the wild type (symbolic, from the "
              "stub) or default; one reaction (every choice, or none) knocked out after the reference was taken"),
-    H("c09_room", c09_room, quick=dict(max_paths=6000, time_budget=70), thorough=dict(max_paths=100000, time_budget=500),
+    H("c09_room", c09_room, quick=dict(max_paths=6000, time_budget=70), thorough=dict(max_paths=100000, time_budget=200),
       bounds="ROOM, MILP variant, on the MILP contract (one binary per reaction: T1 8, T2 16 assignments enumerated in the "
              "formula); first 2 reactions' bounds symbolic; reference = pFBA of the wild type (symbolic, from the stub) or "
              "default; one reaction (every choice, or none) knocked out; (delta,epsilon) in {(0.03,1e-3),(0.25,0.5)}; direction max"),
     H("c09_room_wide", lambda E: c09_room(E, templates=(("T1", 3), ("T2", 2))), tiers=("thorough",),
-      thorough=dict(max_paths=200000, time_budget=500),
+      thorough=dict(max_paths=200000, time_budget=300),
       bounds="ROOM (MILP) on T1 with all bounds symbolic and T2 (4 binaries, 16 assignments) with 2 symbolic reactions"),
     H("c09_room_symbolic_reference", lambda E: c09_room(E, templates=(("T1", 1),), symbolic_reference=True), tiers=("thorough",),
-      thorough=dict(max_paths=100000, time_budget=400),
+      thorough=dict(max_paths=100000, time_budget=200),
       bounds="ROOM (MILP) on T1, reference = pFBA of the wild type taken from the stub (symbolic fluxes), one symbolic reaction, "
              "then one knock-out"),
     H("c09_room_linear", c09_room_linear, quick=dict(max_paths=2000, time_budget=40), thorough=dict(max_paths=20000, time_budget=200),
@@ -402,8 +402,8 @@ HARNESSES = [
     H("c09_solved_before", c09_solved_before, quick=dict(max_paths=6000, time_budget=45), thorough=dict(max_paths=6000, time_budget=100),
       bounds="pfba and linear moma on T2/T3 with 2 symbolic reactions when the model was optimised before its bounds were set "
              "(solver still 'optimal' on the old problem)"),
-    H("c09_pfba_thorough", c09_pfba_thorough, tiers=("thorough",), thorough=dict(max_paths=400000, time_budget=500),
+    H("c09_pfba_thorough", c09_pfba_thorough, tiers=("thorough",), thorough=dict(max_paths=400000, time_budget=400),
       bounds="T1,T2,T3,T7 all symbolic, T4 first 4; fractions {1,9/10,1/2,0}"),
-    H("c09_moma_thorough", c09_moma_thorough, tiers=("thorough",), thorough=dict(max_paths=200000, time_budget=500),
+    H("c09_moma_thorough", c09_moma_thorough, tiers=("thorough",), thorough=dict(max_paths=200000, time_budget=400),
       bounds="T1,T2 all, T3 first 4, T7 first 3 symbolic"),
 ]
